@@ -66,7 +66,8 @@ CallDiff(msgs, rest, ob) ==
       logs == CatLogs(rs)
       weird == \E j \in 1..Len(rs) : rs[j].weird
       alt == \E j \in 1..Len(rs) : rs[j].alt
-      partial == \E j \in 1..Len(rs) : rs[j].partial      \* a handler announced a block and did not finish it: its output is not specified
+      wild == \E j \in 1..Len(rs) : rs[j].wild        \* an "apply every API" handler ran on an item: its output / errors are not specified
+      partial == (\E j \in 1..Len(rs) : rs[j].partial) \/ wild      \* a handler announced a block and did not finish it: its output is not specified
       ret == IF msgs = <<>> THEN TRUE ELSE rs[Len(rs)].ret IN
   IF weird THEN
      \* text that is not a well-formed unit: a command error must be queued; what exactly is skipped is not specified
@@ -77,11 +78,11 @@ CallDiff(msgs, rest, ob) ==
            IF ~u.dataOk /\ u.items # <<>> /\ u.valid /\ ~u.incomplete /\ u.header.type \in CompleteHeaderTypes
            THEN {"h:list-invalid-after-item-then-terminator"} ELSE {})
   ELSE LogDiff(logs, ob.log) \cup E113Diff(logs, ob)
-       \cup (IF alt THEN (IF Len(CatErrs(rs)) = Len(ob.errs) THEN {} ELSE {"errs"}) ELSE IF ErrsMatch(CatErrs(rs), ob.errs) THEN {} ELSE {"errs"})
+       \cup (IF wild THEN {} ELSE IF alt THEN (IF Len(CatErrs(rs)) = Len(ob.errs) THEN {} ELSE {"errs"}) ELSE IF ErrsMatch(CatErrs(rs), ob.errs) THEN {} ELSE {"errs"})
        \cup (IF partial \/ CatOut(rs) = ob.out THEN {} ELSE {"out"} \cup Hints(logs))
        \cup (IF partial \/ SumFlush(rs) = ob.flush THEN {} ELSE {"flush"} \cup Hints(logs))
        \cup (IF partial /\ Len(rs) = 1 /\ rs[1].pbytes # <<>> /\ SubSeq(ob.out, 1, Len(rs[1].pbytes)) # rs[1].pbytes THEN {"out.block-header"} ELSE {})
-       \cup (IF ret = (ob.ret = 1) THEN {} ELSE {"ret"})
+       \cup (IF wild \/ ret = (ob.ret = 1) THEN {} ELSE {"ret"})
        \cup (IF Len(rest) = ob.pos THEN {} ELSE {"pending"})
 OvrDiff(ob) == (IF ob.ret = 0 THEN {} ELSE {"ret"}) \cup (IF ob.errs = <<0 - 363>> THEN {} ELSE {"errs"})
                \cup (IF ob.log = <<>> /\ ob.out = <<>> THEN {} ELSE {"overrun-executed"}) \cup (IF ob.pos = 0 THEN {} ELSE {"pending"})
